@@ -4,7 +4,15 @@
 (* exactly on rational points (C16).                                        *)
 (* A shape is a term; Side(shape, p) is -1 inside, 0 on the surface, 1      *)
 (* outside, 9 undecidable here (the point would need an irrational          *)
-(* coordinate).  A point is three rationals <<n, d>> with d > 0.            *)
+(* coordinate).  A point is three rationals <<n, d>> with d > 0, and a      *)
+(* fourth component <<float, inexact>>: when the point stands for what a    *)
+(* float evaluation computes (F3, used by Trace_C16), `inexact` is the set  *)
+(* of coordinates that went through a transform whose matrix is not exact   *)
+(* in floats (a rotation: cos 90 deg is -4.4e-8 in f32; the reflection      *)
+(* about x = y: its normal is (-1, 1, 0) / sqrt 2).  Such a coordinate is   *)
+(* within rounding of its exact value, which only matters at the one        *)
+(* discontinuous operator, the seam of a repetition: there the side is      *)
+(* undecidable.  The design model (I3) is exact throughout.                 *)
 (*   primitives : sphere / circle |p - c|^2 < r^2 ; box / rectangle strict  *)
 (*       containment ; plane with a named normal ("X", "Y", "Z") or a named *)
 (*       plane ("XY" has normal Z, "YZ" normal X, "ZX" normal Y): inside    *)
@@ -34,7 +42,12 @@ RDivI(a, k) == IF k > 0 THEN <<a[1], a[2] * k>> ELSE <<-a[1], a[2] * (-k)>>     
 RCmpC(a, c) == Sgn(a[1] - c * a[2])                                               \* sign(a - c)
 RInt(a) == a[1] % a[2] = 0
 RVal(a) == a[1] \div a[2]                                                          \* when RInt
-I3(p) == <<<<p[1], 1>>, <<p[2], 1>>, <<p[3], 1>>>>
+I3(p) == <<<<p[1], 1>>, <<p[2], 1>>, <<p[3], 1>>, <<FALSE, {}>>>>
+F3(p) == <<<<p[1], 1>>, <<p[2], 1>>, <<p[3], 1>>, <<TRUE, {}>>>>
+\* flags of a point after a transform that makes the coordinates `add` inexact / exact again (`drop`)
+Mark(p, add, drop) == IF p[4][1] THEN <<TRUE, (p[4][2] \cup add) \ drop>> ELSE p[4]
+Inexact(p, k) == p[4][1] /\ k \in p[4][2]
+Others(axis) == CASE axis = "X" -> {2, 3} [] axis = "Y" -> {1, 3} [] axis = "Z" -> {1, 2}
 
 \* sign of sum_i (p_i - c_i)^2 - r^2 over the first k coordinates
 Dist2Sign(p, c, r, k) ==
@@ -52,9 +65,9 @@ Slab(x, lo, hi) == SMax(-RCmpC(x, lo), RCmpC(x, hi))
 NormalOf(name) == CASE name \in {"X", "YZ"} -> 1 [] name \in {"Y", "ZX"} -> 2 [] name \in {"Z", "XY"} -> 3
 
 \* inverse quarter turn (right-handed rotation about `axis`), applied q times
-Quarter(axis, p) == CASE axis = "Z" -> <<p[2], RNeg(p[1]), p[3]>>
-                      [] axis = "X" -> <<p[1], p[3], RNeg(p[2])>>
-                      [] axis = "Y" -> <<RNeg(p[3]), p[2], p[1]>>
+Quarter(axis, p) == CASE axis = "Z" -> <<p[2], RNeg(p[1]), p[3], p[4]>>
+                      [] axis = "X" -> <<p[1], p[3], RNeg(p[2]), p[4]>>
+                      [] axis = "Y" -> <<RNeg(p[3]), p[2], p[1], p[4]>>
 RECURSIVE Quarters(_, _, _)
 Quarters(axis, p, q) == IF q = 0 THEN p ELSE Quarters(axis, Quarter(axis, p), q - 1)
 ISqrt(n) == IF \E k \in 0..40 : k * k = n THEN CHOOSE k \in 0..40 : k * k = n ELSE -1
@@ -71,22 +84,26 @@ Side(s, p) ==
     [] s[1] = "box" -> SMax(SMax(Slab(p[1], s[2][1], s[3][1]), Slab(p[2], s[2][2], s[3][2])), Slab(p[3], s[2][3], s[3][3]))
     [] s[1] = "rect" -> SMax(Slab(p[1], s[2][1], s[3][1]), Slab(p[2], s[2][2], s[3][2]))
     [] s[1] = "plane" -> RCmpC(p[NormalOf(s[2])], s[3])
-    [] s[1] = "move" -> Side(s[2], <<RSubC(p[1], s[3][1]), RSubC(p[2], s[3][2]), RSubC(p[3], s[3][3])>>)
-    [] s[1] = "scale" -> Side(s[2], <<RDivI(p[1], s[3][1]), RDivI(p[2], s[3][2]), RDivI(p[3], s[3][3])>>)
-    [] s[1] = "scaleu" -> Side(s[2], <<RDivI(p[1], s[3]), RDivI(p[2], s[3]), RDivI(p[3], s[3])>>)
+    [] s[1] = "move" -> Side(s[2], <<RSubC(p[1], s[3][1]), RSubC(p[2], s[3][2]), RSubC(p[3], s[3][3]), p[4]>>)
+    [] s[1] = "scale" -> Side(s[2], <<RDivI(p[1], s[3][1]), RDivI(p[2], s[3][2]), RDivI(p[3], s[3][3]), p[4]>>)
+    [] s[1] = "scaleu" -> Side(s[2], <<RDivI(p[1], s[3]), RDivI(p[2], s[3]), RDivI(p[3], s[3]), p[4]>>)
     [] s[1] = "reflect" -> LET i == NormalOf(s[3]) IN
-                           Side(s[2], [k \in 1..3 |-> IF k = i THEN RCSub(2 * s[4], p[k]) ELSE p[k]])
-    [] s[1] = "reflectxy" -> Side(s[2], <<p[2], p[1], p[3]>>)
+                           Side(s[2], [k \in 1..4 |-> IF k = i THEN RCSub(2 * s[4], p[k]) ELSE p[k]])
+    [] s[1] = "reflectxy" -> Side(s[2], <<p[2], p[1], p[3], Mark(p, {1, 2}, {})>>)
     [] s[1] = "rot" -> LET c == s[5]
-                           q == Quarters(s[3], <<RSubC(p[1], c[1]), RSubC(p[2], c[2]), RSubC(p[3], c[3])>>, s[4])
-                       IN Side(s[2], <<RSubC(q[1], -c[1]), RSubC(q[2], -c[2]), RSubC(q[3], -c[3])>>)
+                           q == Quarters(s[3], <<RSubC(p[1], c[1]), RSubC(p[2], c[2]), RSubC(p[3], c[3]), p[4]>>, s[4])
+                       IN Side(s[2], <<RSubC(q[1], -c[1]), RSubC(q[2], -c[2]), RSubC(q[3], -c[3]), Mark(p, Others(s[3]), {})>>)
     [] s[1] = "repeatx" -> IF ~RInt(p[1]) THEN Undef
-                           ELSE LET r == s[3] - s[4] IN
-                                Side(s[2], << <<((RVal(p[1]) + r) % (2 * s[3])) - r, 1>>, p[2], p[3]>>)
+                           ELSE LET r == s[3] - s[4]
+                                    m == (RVal(p[1]) + r) % (2 * s[3]) IN
+                                IF m = 0 /\ Inexact(p, 1) THEN Undef
+                                ELSE Side(s[2], << <<m - r, 1>>, p[2], p[3], p[4]>>)
     [] s[1] = "revolvey" -> IF ~RInt(p[1]) \/ ~RInt(p[3]) THEN Undef
                             ELSE LET q == ISqrt(RVal(p[1]) * RVal(p[1]) + RVal(p[3]) * RVal(p[3])) IN
-                                 IF q < 0 THEN Undef ELSE Side(s[2], << <<q, 1>>, p[2], p[3]>>)
-    [] s[1] = "extrudez" -> SMax(Side(s[2], <<p[1], p[2], <<0, 1>>>>), Slab(p[3], s[3], s[4]))
+                                 IF q < 0 THEN Undef
+                                 ELSE Side(s[2], << <<q, 1>>, p[2], p[3],
+                                                    Mark(p, IF Inexact(p, 1) \/ Inexact(p, 3) THEN {1} ELSE {}, {})>>)
+    [] s[1] = "extrudez" -> SMax(Side(s[2], <<p[1], p[2], <<0, 1>>, Mark(p, {}, {3})>>), Slab(p[3], s[3], s[4]))
     [] s[1] = "union" -> SideAll(s[2], p, 1, TRUE)
     [] s[1] = "inter" -> SideAll(s[2], p, 1, FALSE)
     [] s[1] = "diff" -> SMax(Side(s[2], p), SNeg(Side(s[3], p)))
